@@ -173,6 +173,25 @@ func init() {
 		Outside: []string{"histories longer than the bound; names outside the six-name universe; nested directories and patterns with directory wildcards", "unreadable files, symbolic links, sockets and pipes (C17)", "edits that race with a poll in progress"}})
 }
 
+// ---- C03 (reduced): the compiler pipeline on templates with symbolic bytes ----
+
+func init() {
+	register(&CheckDef{ID: "C03", Level: "model_checking", Only: []string{"C03."},
+		Jobs: func(tier string) []JobDef {
+			mk := func(nsym, nt int) JobDef {
+				return JobDef{Name: fmt.Sprintf("templates-s%d-t%d", nsym, nt), Pkg: "github.com/google/mtail/internal/runtime/compiler", Dir: "internal/runtime/compiler",
+					Harness: []string{"compiler/c03.go"}, Entry: "HarnessC03", Params: p("nsym", nsym, "ntemplates", nt),
+					Bound: fmt.Sprintf("the first %d of eleven program templates with %d adjacent byte(s) at an arbitrary position replaced by arbitrary bytes", nt, nsym)}
+			}
+			if tier == "thorough" {
+				return []JobDef{mk(1, 11), mk(2, 4)}
+			}
+			return []JobDef{mk(1, 11)}
+		},
+		Assumptions: baseAssumptions,
+		Outside: []string{"arbitrary source texts (only one- and two-byte perturbations of eleven templates)", "termination in bounded time beyond the engine's step budget"}})
+}
+
 // ---- C19: a one-shot run of tailer + runtime ----
 
 const mtailPkg = "github.com/google/mtail/internal/mtail"
@@ -228,6 +247,36 @@ func init() {
 			"re-creation after a deletion is followed by the tailer opening a new stream for the path (done by the harness as tail.go does, not seeking past data since the file is new and empty)",
 		}, baseAssumptions...),
 		Outside: []string{"histories longer than the bound; payloads longer than one byte per append (framing of longer data is C15)", "several edits between two polls", "read errors, ESTALE", "pipes, sockets (C17), glob polling (C18)"}})
+}
+
+// ---- C17 (named pipes): the fifo stream over a model pipe ----
+
+func init() {
+	register(&CheckDef{ID: "C17", Level: "model_checking", Only: []string{"C17."},
+		Jobs: func(tier string) []JobDef {
+			steps := 3
+			if tier == "thorough" {
+				steps = 4
+			}
+			return []JobDef{{Name: fmt.Sprintf("fifo-%d", steps), Pkg: logstreamPkg, Dir: "internal/tailer/logstream",
+				Harness: []string{"logstream/c15.go", "logstream/c16.go", "logstream/c17.go"}, EngineOnly: []string{"logstream/c16_engine.go"}, NativeOnly: []string{"logstream/c16_native.go"},
+				Entry: "HarnessC17Fifo", Params: p("steps", steps),
+				Bound: fmt.Sprintf("a named pipe with or without a writer when the stream opens it; every history of %d steps over {open the writing end, write 1..2 arbitrary bytes, close the writing end, poll}, the stream settled after each; then the writer's close or a cancellation ends the stream", steps)},
+				{Name: fmt.Sprintf("socket-%d", steps), Pkg: logstreamPkg, Dir: "internal/tailer/logstream",
+					Harness: []string{"logstream/c15.go", "logstream/c16.go", "logstream/c17.go"}, EngineOnly: []string{"logstream/c16_engine.go"}, NativeOnly: []string{"logstream/c16_native.go"},
+					Entry: "HarnessC17Socket", Params: p("steps", steps),
+					Bound: fmt.Sprintf("a listening unix stream socket and up to two connections; every history of %d steps over {connect, write 1..2 arbitrary bytes, close, poll} on either connection, the stream settled after each; then cancellation", steps)},
+				{Name: fmt.Sprintf("dgram-%d", steps), Pkg: logstreamPkg, Dir: "internal/tailer/logstream",
+					Harness: []string{"logstream/c15.go", "logstream/c16.go", "logstream/c17.go"}, EngineOnly: []string{"logstream/c16_engine.go"}, NativeOnly: []string{"logstream/c16_native.go"},
+					Entry: "HarnessC17Dgram", Params: p("steps", steps),
+					Bound: fmt.Sprintf("a unix datagram socket with one sender; every history of %d steps over {send a datagram of 0..2 arbitrary bytes, poll}, the stream settled after each; then cancellation", steps)}}
+		},
+		Assumptions: append([]string{
+			"the pipe is a model (a byte queue and a count of open writing ends): a read returns a chunk of the queued bytes of the solver's choosing (1, 2 or all of them), end of file when no writing end is open, an i/o timeout once SetReadDeadline was called, and waits otherwise - pipe(7) and Go's poller for a descriptor opened O_NONBLOCK; natively a real fifo made with mkfifo(2) in a temporary directory",
+			"a stream socket is a model: a listener with a queue of pending connections; a connection is a byte queue with reads as for the pipe, end of file after the peer closed, 'use of closed network connection' after Close; a datagram socket is a queue of datagrams, one per read; natively real unix sockets in a temporary directory",
+			"the stream goroutines run under the engine's deterministic scheduler (a read is a yield point) and are settled after each step",
+		}, baseAssumptions...),
+		Outside: []string{"standard input; TCP and UDP (the unix variants are run; the stream code is the same, the address family is not modelled); two datagram senders", "several writers on one pipe, more than two connections; histories longer than the bound", "bytes written while the stream is being cancelled"}})
 }
 
 // ---- C11: data races between pairs of operations ----
